@@ -101,6 +101,8 @@ class SemFlow(Flow):
             raise Unsupported("zbool as a term")
         if isinstance(v, tuple) and v and v[0] == "int":
             return const("int_%d" % v[1])
+        if isinstance(v, tuple) and v and v[0] == "fnitem":
+            return const("fn_" + re.sub(r"\W+", "_", v[1])[:60])
         if isinstance(v, tuple) and v and v[0] in ("vec", "set", "iter", "names", "optflag"):
             # a container model handed to an unmodelled callee: an opaque value (its identity is the Python object's)
             k = self._opaque.setdefault(id(v), len(self._opaque))
@@ -200,6 +202,8 @@ class SemFlow(Flow):
         mi = re.fullmatch(r"const (-?\d+)_[ui](?:8|16|32|64|128|size)", t)
         if mi:
             return ("int", int(mi.group(1)))
+        if not t.startswith(("copy ", "move ", "const ", "no_retag ")) and re.fullmatch(r"[A-Za-z_<][\w:<>' ,&]*", t) and "::" in t:
+            return ("fnitem", t)            # a function item passed by name (e.g. `.any(Self::is_impure)`)
         if t.startswith("const ") and t[6:].strip() in self.named_consts:
             return self.named_consts[t[6:].strip()]
         return Flow.operand(self, P, txt)
